@@ -19,7 +19,12 @@ def qr_program(rng):
     r = rng.randint(c + 1, 16)
     rc = rng.randint(max(1, c - 1), r)
     inp = dict(shape=[r, c], chunks=[rc, c], dtype="float64", seed=rng.randint(0, 9), pattern="lin", src="asarray")
-    prog = dict(inputs=[inp], steps=[dict(op="qr", args=[0])], outs=[1, 2], family="qr")
+    if rng.random() < 0.5:
+        prog = dict(inputs=[inp], steps=[dict(op="qr", args=[0])], outs=[1, 2], family="qr")
+    else:
+        if rng.random() < 0.3:      # wide input: svd works on the transpose
+            inp = dict(inp, shape=[c, r], chunks=[c, rc])
+        prog = dict(inputs=[inp], steps=[dict(op="svd", args=[0])], outs=[1, 2, 3], family="svd")
     return prog
 
 
